@@ -45,4 +45,25 @@ func init() {
 			description: "native build with lock model; histories from the tape",
 		}},
 	}
+	streamStubs := []string{"the io.Reader / io.Writer handed to Decode / Encode is the simulated medium (simio): chunking, (n,EOF), (0,nil), ByteReader or not, failing reads/writes, stored-byte damage"}
+	specs["C15"] = &checkSpec{
+		id:    "C15",
+		level: "fault_enumeration",
+		rule: "corpus entries are valid encodings produced by the library's own encoders from seeded values of all nine encodable types (both polygon formats, snapped/unsnapped/mixed vertices, 0..many loops, empty/full). c15enum: for every corpus entry EVERY truncation length, single-bit flip, single-byte overwrite {00,7f,80,ff}, 4- and 8-byte little-endian and varint count forgery (2^31-1 .. 2^64-1) at every offset, and a hard read error at every offset, each under two reader shapes (io.ByteReader; plain reader delivering 1 byte per Read). c15seq: seeded sequences of 1-6 mixed faults, random bytes, splices, cross-type decoding, under drawn chunking/EOF/zero-read/transient-error behaviour. " +
+			"evaluations = decodes performed; distinct_nontrivial = distinct damaged byte strings (hash), summed per corpus entry for c15enum plus distinct (stream, reader) signatures for c15seq. Oracle: Decode returns; no panic; no fatal abort (workers run under an address-space cap, so an allocation for an unchecked count is an observable abort); no stall; a returned value survives containment, bounds, edge, cell and re-encode calls.",
+		explanation: "fault enumeration on the stored bytes and the read stream of every Decode method, in capped worker processes",
+		assumptions: []string{
+			"'rejected before memory is allocated' is observed through the per-worker address-space cap (6 GiB): an allocation sized by a count beyond the documented limits aborts the worker, counts inside the limits may legitimately allocate up to about 2.5 GB",
+			"a nil error together with a value different from the original is not a violation of this property and is only counted (decode_success_after_fault)",
+			"a decode or use that makes no progress for 40 s of wall time is reported as a hang (normal cases take microseconds to seconds)",
+		},
+		real:  realCode,
+		stubs: streamStubs,
+		runs: []engineRun{
+			{spec: engineSpec{name: "c15enum", memCap: 6 << 30}, label: "c15enum", quickRuns: 4, quickDL: 50 * time.Second, thorRuns: 400, thorDL: 25 * time.Minute,
+				description: "complete single-fault enumeration per corpus entry"},
+			{spec: engineSpec{name: "c15seq", memCap: 6 << 30}, label: "c15seq", quickRuns: 6000, quickDL: 25 * time.Second, thorRuns: 2000000, thorDL: 20 * time.Minute,
+				description: "seeded multi-fault sequences, splices, random bytes, cross-type decoding"},
+		},
+	}
 }
